@@ -6,6 +6,8 @@ import os
 import numpy as np
 
 from .. import engine, optics as op, refmodel as rm
+from .. import histories
+from ..histories import t_callhist      # worker task of the history harness (mc/histories.py)
 
 PID = 'C04'
 MOD = 'mc.props.c04'
@@ -13,7 +15,7 @@ WL, Z = op.WL, 1.0
 
 # displacements in oversampled output samples (row, col): 0, sub-pixel, 1.6, 4, larger than the output; both signs; mixed
 DISPL = [(0.0011, -0.0007), (0, 0), (0.25, 0), (0, -1.6), (1.6, 0.25), (-4, 1.6), (4, 4), (30, 0), (0, -30), (-0.25, -0.25), (2.5, -3)]
-REPS = ['opd', 'tilt_after', 'tilt_before', 'wavefront', 'fit', 'split', 'fit_then_tilt']
+REPS = ['opd', 'tilt_after', 'tilt_before', 'wavefront', 'fit', 'split', 'fit_then_tilt', 'fit_plane_behind', 'fit_plane_front']
 
 
 def pupil_shapes(tier):
@@ -138,6 +140,15 @@ def build(cfg, seed):
             w = lentil.Wavefront(WL) * lentil.Tilt(x=tx, y=ty) * pupil
         elif rep == 'wavefront':
             w = lentil.Wavefront(WL, tilt=[tx, ty]) * pupil
+        elif rep in ('fit_plane_behind', 'fit_plane_front'):
+            # the tilt sits in a second, full-aperture plane as fitted metadata, behind / in front of the (segmented) pupil: every
+            # Field that passes that plane inherits its Tilt exactly once
+            full = ramp(shape, dx, tx, ty)
+            B = lentil.Pupil(amplitude=np.ones(shape), opd=full.copy(), **kw).fit_tilt()
+            w = (lentil.Wavefront(WL) * pupil * B) if rep == 'fit_plane_behind' else (lentil.Wavefront(WL) * B * pupil)
+            t = ls_tilt(full, np.ones(shape), dx)
+            shifts = [displ_for(t[1], t[2], du, os_)] * nseg
+            return w, segs, shifts
         elif rep == 'split':
             # half of the tilt enters with the wavefront, the other half through a Tilt plane behind the (segmented) pupil
             w = lentil.Wavefront(WL, tilt=[tx / 2, ty / 2]) * pupil * lentil.Tilt(x=tx / 2, y=ty / 2)
@@ -501,6 +512,8 @@ def chk_hist(case, acc, seed):
 DISPATCH = {'dispreuse': chk_disp_reuse, 'rep': chk_rep, 'shift': chk_shift, 'fit': chk_fit, 'order': chk_order, 'hist': chk_hist}
 
 
+DISPATCH['histop'] = histories.chk_case
+
 def t_rep(arg, acc):
     tier, seed = arg['tier'], arg['seed']
     pupil, aperture, rep = tuple(arg['pupil']), arg['aperture'], arg['rep']
@@ -583,6 +596,7 @@ def run(tier, seed, acc, procs=None):
         tasks.append(('t_misc', {'tier': tier, 'seed': seed, 'what': 'hist', 'first': first}))
     acc.states += 1
     acc.transitions += len(tasks)
+    tasks += histories.tasks_for(PID, seed)        # pairwise call histories over the operations this property is anchored in
     engine.run_parallel(MOD, tasks, acc, procs)
     return {
         'rule': 'five tilt representations (OPD ramp, Tilt plane after/before the pupil, Wavefront(tilt=), fit_tilt) x pupil x '
@@ -596,7 +610,7 @@ def run(tier, seed, acc, procs=None):
         'assumptions': ['reference = Fraunhofer sum of the field with all tilt written into the OPD (exact rational phase)',
                         'the window may be displaced by any integer vector within one sample of the exact shift (no rounding policy)',
                         'dispersive displacements: tolerance 1e-6 relative (the numeric root finder own accuracy)'],
-        'require': {'rep:split': 100, 'rep:fit_then_tilt': 100, 'rep:opd': 100, 'rep:fit': 100, 'rep:tilt_after': 100, 'rep:wavefront': 100, 'nonsquare-du': 500, 'square': 500,
+        'require': {'rep:split': 100, 'rep:fit_then_tilt': 100, 'rep:fit_plane_behind': 100, 'rep:fit_plane_front': 100, 'rep:opd': 100, 'rep:fit': 100, 'rep:tilt_after': 100, 'rep:wavefront': 100, 'nonsquare-du': 500, 'square': 500,
                     'beyond-output': 100, 'nonempty': 1000, 'fit': 100, 'orderings': 50, 'histories': 100},
     }
 
